@@ -334,6 +334,14 @@ func NewPool(kt string, code uint, variant string) *Pool {
 			s.SignKey = k("a0")
 			s.SignedExtra = map[string]interface{}{"revealValue": Reveal(legit, code)}
 		}, func(a *sidetree.Op) { a.Authorized = true; a.Reveals = c("a0") })
+		// (s) like (h) - attacker key in the payload and as signer, the request's reveal value is the committed key's - plus an
+		// extra signed member "revealValue" that matches the attacker key: only the request-level reveal value, which selects
+		// the commitment, may be compared with the signing key
+		forged("s", func(s *OpSpec) {
+			s.RevealKey = s.SignKey
+			s.SignKey = k("a0")
+			s.SignedExtra = map[string]interface{}{"revealValue": Reveal(k("a0"), code)}
+		}, func(a *sidetree.Op) { a.ParseOK = false })
 		// (w) committed key in the payload, signed by the attacker, and a signed window that fails at every grid time:
 		// the out-of-window shortcut must not be reachable without a valid signature
 		forged("w", func(s *OpSpec) { s.PayloadKey = s.SignKey; s.SignKey = k("a0"); s.From, s.Until = LateFrom, LateUntil }, nil)
